@@ -125,3 +125,77 @@ def name_index(which: str, n: int) -> Tuple[Optional[str], Optional[str], bool, 
     p.fast_forward()
     v = p.variables
     return (v.get("x"), v.get("y"), v.get("ex"), v.get("ey"))
+
+
+# ------------------------------------------------------------------ O5 the real CsvDataReader hands the dialect to csv.reader unchanged
+class _FakeCsv:
+    """stands in for the csv module inside csvpath.util.file_readers: records the dialect, yields fixed records"""
+
+    SEEN = []
+
+    @classmethod
+    def reader(cls, file, **kw):
+        cls.SEEN.append(kw)
+        return iter([["h", "i"], ["a", "b"]])
+
+
+@ob(
+    "C06",
+    "O5-reader-dialect",
+    pre=["len(d) == 1 and len(q) == 1"],
+    post="_ == (d, q, d, q)",
+    bound="the real CsvDataReader (constructor and next()) with delimiter and quotechar symbolic 1-character strings (any character, "
+    "white space included): csv.reader - replaced by a recording stub - receives exactly these two values; also through DataFileReader(path, ...)",
+    outside="csv.reader itself; the None defaults",
+    encodes=["csvpath/util/file_readers.py:CsvDataReader.__init__/next", "csvpath/util/file_readers.py:DataFileReader.__new__"],
+    tiers={"quick": {"timeout": 300}},
+)
+def reader_dialect(d: str, q: str) -> Tuple[str, str, str, str]:
+    import os
+    import csvpath.util.file_readers as fr
+    from vp import kit
+
+    path = os.path.join(kit.workdir(), "dialect.csv")
+    with NoTracing():
+        with open(path, "w") as f:
+            f.write("h,i\na,b\n")
+        saved = fr.csv
+        fr.csv = _FakeCsv
+        del _FakeCsv.SEEN[:]
+    try:
+        r1 = fr.CsvDataReader(path, delimiter=d, quotechar=q)
+        for _ in r1.next():
+            pass
+        r2 = fr.DataFileReader(path, delimiter=d, quotechar=q)
+        for _ in r2.next():
+            pass
+    finally:
+        with NoTracing():
+            fr.csv = saved
+    a, b = _FakeCsv.SEEN[0], _FakeCsv.SEEN[1]
+    return (a.get("delimiter"), a.get("quotechar"), b.get("delimiter"), b.get("quotechar"))
+
+
+def dup_oracle(n):
+    row = ["A", "B", "C"][:n]
+    return (row[0], row[0], (row[1] if n > 1 else None), (row[1] if n > 1 else None))
+
+
+@ob(
+    "C06",
+    "O6-duplicate-header-name",
+    pre=["1 <= n <= 3"],
+    post="_ == dup_oracle(n)",
+    bound="headers [x, y, x] (a repeated name); a data row of symbolic length 1..3: '#x' addresses the same cell as '#0' (the first "
+    "column of that name), '#y' the same as '#1'",
+    outside="more than one repeated name",
+    encodes=ENC + ["csvpath/csvpath.py:CsvPath.header_index", "csvpath/matching/productions/header.py:Header.to_value"],
+    tiers={"quick": {"timeout": 300}},
+)
+def dup_header(n: int) -> Tuple[Optional[str], Optional[str], Optional[str], Optional[str]]:
+    row = ["A", "B", "C"][:n]
+    p, pr = fresh('$SYM[1][ @a = #x  @b = #0  @c = #y  @d = #1 ]', [["x", "y", "x"], ["A", "B", "C"]])
+    StubReader.RECORDS = [["x", "y", "x"], row]
+    p.fast_forward()
+    v = p.variables
+    return (v.get("a"), v.get("b"), v.get("c"), v.get("d"))
